@@ -23,6 +23,7 @@ import (
 	"strconv"
 	"strings"
 	"sync"
+	"sync/atomic"
 	"testing"
 	"time"
 
@@ -620,6 +621,10 @@ type c05AppsOut struct {
 	Hung       bool    `json:"hung"`
 }
 
+// c05Rejected: applications the collector turns away at once (401 at preconnect: invalid license).  They keep
+// their entry in the application table -- agents are still answered for them -- and so they count.
+func c05Rejected(k int64) bool { return k%7 == 3 }
+
 func c05RunApps(keys []int64) (out c05AppsOut) {
 	out.Counts = []int64{}
 	var mu sync.Mutex
@@ -630,6 +635,9 @@ func c05RunApps(keys []int64) (out c05AppsOut) {
 			mu.Lock()
 			pre[string(cmd.License)] = true
 			mu.Unlock()
+			if strings.HasPrefix(string(cmd.License), "c05rej") {
+				return collector.RPMResponse{StatusCode: 401, Err: fmt.Errorf("verif: invalid license")}
+			}
 		}
 		<-block // never answered during the scenario
 		return collector.RPMResponse{StatusCode: 503}
@@ -638,9 +646,27 @@ func c05RunApps(keys []int64) (out c05AppsOut) {
 	p.trackProgress = make(chan struct{})
 	go p.Run()
 	<-p.trackProgress
+	// the processor announces every event on the unbuffered progress channel: keep it drained
+	var events int64
+	stop := make(chan struct{})
+	defer close(stop)
+	go func() {
+		for {
+			select {
+			case <-p.trackProgress:
+				atomic.AddInt64(&events, 1)
+			case <-stop:
+				return
+			}
+		}
+	}()
 	for _, k := range keys {
+		lic := fmt.Sprintf("c05cap%06d0123456789abcdef0123456789abcd", k)
+		if c05Rejected(k) {
+			lic = fmt.Sprintf("c05rej%06d0123456789abcdef0123456789abcd", k)
+		}
 		info := &AppInfo{
-			License:       collector.LicenseKey(fmt.Sprintf("c05cap%06d0123456789abcdef0123456789abcd", k)),
+			License:       collector.LicenseKey(lic),
 			Appname:       fmt.Sprintf("cap%d", k),
 			AgentLanguage: "php", AgentVersion: "1.0", Environment: JSONString(`[]`), Labels: JSONString(`[]`),
 			Hostname: "h",
@@ -648,12 +674,27 @@ func c05RunApps(keys []int64) (out c05AppsOut) {
 		done := make(chan struct{})
 		go func() { p.IncomingAppInfo(nil, info); close(done) }()
 		select {
-		case <-p.trackProgress:
+		case <-done:
 		case <-time.After(5 * time.Second):
 			out.Hung = true
 			return
 		}
-		<-done
+		if c05Rejected(k) {
+			// let the verdict of the rejected application reach the processor before the next one registers
+			before := atomic.LoadInt64(&events)
+			dl := time.Now().Add(300 * time.Millisecond)
+			for atomic.LoadInt64(&events) < before+1 && time.Now().Before(dl) {
+				time.Sleep(200 * time.Microsecond)
+			}
+		}
+		// quiesce: the processor is idle when no event has been announced for a moment
+		last, quiet := atomic.LoadInt64(&events), time.Now()
+		for time.Since(quiet) < 300*time.Microsecond {
+			if e := atomic.LoadInt64(&events); e != last {
+				last, quiet = e, time.Now()
+			}
+			time.Sleep(50 * time.Microsecond)
+		}
 		out.Counts = append(out.Counts, int64(len(p.apps)))
 	}
 	// give the connect goroutines a moment to reach the client
